@@ -3,6 +3,7 @@ import RV.C17.LemmasFresh
 import RV.C17.LemmasTrieHist
 import RV.C17.LemmasFail
 import RV.C17.LemmasSplit
+import RV.C17.LemmasCat
 /-
   C17 — property theorems (statements first, as `def … : Prop`, then the proofs).
 
@@ -113,6 +114,17 @@ def Statement_document_names_expand : Prop :=
     (serDoc fb qs (St.init.run ops).store ((St.init.run ops).mgr i) Doc.empty []).2.2 = .ok (d, names) →
       ∀ u dp l, (u, dp, l) ∈ names → ∃ n, alookup d.table dp = some n ∧ n ++ l = u
 
+/-- The same for a TriG document of a dataset: ONE prefix table, but the contexts (graphs) are walked one
+    after the other, each through its own graph object and therefore its own manager (`i`: the named graphs
+    of a `Dataset` share the dataset's manager, the default graph has its own) on the common store; a prefix
+    bound or generated while one context is written is seen by the next.  After any history, for any list
+    of contexts (manager, graph name and nodes): every prefixed name `d:l` produced for an IRI `u` expands
+    through the document's final `@prefix` table back to `u`. -/
+def Statement_trig_names_expand : Prop :=
+  ∀ (ops : List Op) (fb : Bool) (cs : List (Bool × List (Str × Bool))) (d : Doc) (names : List (Str × Str × Str)),
+    (serTrig fb cs (St.init.run ops) Doc.empty []).2 = .ok (d, names) →
+      ∀ u dp l, (u, dp, l) ∈ names → ∃ n, alookup d.table dp = some n ∧ n ++ l = u
+
 /-- No operation, in any state — hence after every history — answers `Loop`: the fuel the model
     gives to the three `while` loops always suffices.  Fuel as a function of the sizes: the `ns<k>` loop
     of `compute_qname` and the `<prefix><k>` loop of `bind` stop within `len(bindings) + 1` rounds, the
@@ -147,7 +159,32 @@ def Statement_qname_fails_only_unsplittable : Prop :=
         (splitUri splitStartCats u = none ∧
           ((St.init.run ops).store.prefix u = none ∨ (St.init.run ops).store.prefix u = some [])))
 
+/-- The same for `qname_strict(u)` (every `compute_qname_strict(u, generate=True)`, the call the RDF/XML
+    serializers make for every predicate): after every history it fails only with ValueError, and only if `u`
+    has a forbidden character, or `split_uri(u)` raises (and `u` is not itself a namespace bound to a non-empty
+    prefix), or the strict split `split_uri(u, NAME_START_CATEGORIES)` raises. -/
+def Statement_qname_strict_fails_only : Prop :=
+  ∀ (ops : List Op) (i : Bool) (u : Str) (e : Err),
+    ((St.init.run ops).step (.qstrict i u)).2 = .err e →
+      e = .ValueError ∧ (validUri u = false ∨
+        (splitUri splitStartCats u = none ∧
+          ((St.init.run ops).store.prefix u = none ∨ (St.init.run ops).store.prefix u = some [])) ∨
+        splitUri nameStartCats u = none)
+
+/-- `unicodedata.category` for ALL of Unicode.  The model's `category` (a descent in the generated search
+    tree `Tables.catTree`) equals, for every natural number, the linear reading `categorySpec` of the flat
+    table `Tables.catRuns` generated from the running Python's `unicodedata` (first code point and category
+    of every run); that table starts at code point 0 and consists of maximal runs in strictly increasing
+    order; every code point below `catLimit` = 0x110000 has one of the `catNames` (never `catUnknown`).
+    So `split_spec`, `split_uri_complete`, `is_ncname` … speak about every Python string, not a sample. -/
+def Statement_category_table : Prop :=
+  (∀ c, category c = categorySpec c) ∧ (∀ c, c < catLimit → category c < catUnknown) ∧
+  runsCanonical catRuns = true ∧ (catRuns.head?.map Prod.fst) = some 0 ∧ catNames.length = catUnknown
+
 /-! ### Proofs -/
+
+theorem category_table : Statement_category_table :=
+  ⟨category_eq_spec, category_known, catRuns_canonical, by decide +kernel, by decide⟩
 
 theorem bind_bijective : Statement_bind_bijective :=
   fun ops => (HInv.run ops HInv.init).store.bij
@@ -177,6 +214,11 @@ theorem document_names_expand : Statement_document_names_expand := by
   exact (serDoc_all fb qs _ _ Doc.empty [] (hi.mgr i).1 (hi.mgr i).2
     (by intro u dp l hm; exact absurd hm (by simp))).2 d names h
 
+theorem trig_names_expand : Statement_trig_names_expand := by
+  intro ops fb cs d names h
+  exact (serTrig_all fb cs _ Doc.empty [] (HInv.run ops HInv.init)
+    (by intro u dp l hm; exact absurd hm (by simp))).2 d names h
+
 theorem no_loop : Statement_no_loop :=
   ⟨St.step_noloop, fun _ op => St.step_noloop _ op, pickNs_terminates, pickNumbered_terminates,
     freshP_terminates⟩
@@ -187,6 +229,9 @@ theorem split_uri_complete : Statement_split_uri_complete :=
 
 theorem qname_fails_only_unsplittable : Statement_qname_fails_only_unsplittable :=
   fun ops i u e h => step_qname_error (HInv.run ops HInv.init) i u e h
+
+theorem qname_strict_fails_only : Statement_qname_strict_fails_only :=
+  fun ops i u e h => step_qstrict_error (HInv.run ops HInv.init) i u e h
 
 theorem longest_is_longest : Statement_longest_is_longest := getLongest_build
 
@@ -243,6 +288,28 @@ example : ((St.init.run exCollide).step (.serdoc false true [(nsE ++ [115], fals
 example : ((St.init.run exCollide).step (.serdoc false false [(iriX, true), (nsE ++ [115], false)])).2 =
     .doc [(sPv, nsEa), (112 :: sPv, nsE)] := by decide
 
+/-- categories of a few code points of different planes (é Ll, 中 Lo, U+1D7D8 𝟘 Nd, U+E0001 Cf, U+10FFFF Cn) -/
+example : (category 233, category 20013, category 120792, category 917505, category 1114111, category 1114112) =
+    (catNames.idxOf "Ll", catNames.idxOf "Lo", catNames.idxOf "Nd", catNames.idxOf "Cf", catNames.idxOf "Cn", catUnknown) := by
+  decide +kernel
+
+/-- TriG: the named graph (manager 0) declares `a:`; the default graph (manager 1, whose trie does not know
+    the longer namespace) meets the same prefix string `a` — re-bound in between is impossible inside one
+    document, but a `_v` prefix and a real `p_v` still collide across contexts and are kept apart -/
+example : ((St.init.run exCollide).step (.sertrig true
+      [(false, [(nsE ++ [103], false), (nsE ++ [115], false)]), (true, [(iriX, true)])])).2 =
+    .doc [(sPv, nsE), (112 :: sPv, nsEa)] := by decide
+/-- RDF/XML: the `xmlns` table of a graph with the predicates `http://e/a/x` (prefix `b`) and `http://e/1a`
+    (the strict split generates `ns1` for `http://e/1`), and the generated prefix is bound afterwards -/
+example : ((St.init.run exHist).step (.serxml false [iriX, nsE ++ [49, 97]] [iriX, nsE ++ [49, 97]])).2 =
+      .doc [(sB, nsEa), ([110, 115, 49], nsE ++ [49]), (strRdf, rdfNs)] ∧
+    ((St.init.run exHist).step (.serxml false [iriX, nsE ++ [49, 97]] [iriX, nsE ++ [49, 97]])).1.store.namespace [110, 115, 49] =
+      some (nsE ++ [49]) := by decide
+
+/-- `bind_namespaces="cc"` raises NotImplementedError, an unknown mode ValueError; nothing is bound -/
+example : (St.init.step (.minit false .cc)).2 = .err .Other ∧ (St.init.step (.minit true .unknown)).2 = .err .ValueError ∧
+    (St.init.step (.minit false .cc)).1.store.namespaces = [] := by decide
+
 /-- `split_uri` on the three shapes: a hyphen before the name is left in the namespace; "abc" raises;
     slash-ab-slash-hyphen wraps round and splits after the first slash; an IRI ending in slash-hyphen
     raises (its first character is a start character) -/
@@ -251,6 +318,10 @@ example : splitUri splitStartCats [97, 98, 99] = none := by decide
 example : splitUri splitStartCats [47, 97, 98, 47, 45] = some ([47], [97, 98, 47, 45]) := by decide
 example : splitUri splitStartCats (nsE ++ [45]) = none := by decide
 example : ((St.init.run exHist).step (.qname false (nsE ++ [45]))).2 = .err .ValueError := by decide
+/-- `http://e/1`: the default split gives the local name `1`, which is not an NCName, and the strict split
+    finds no name-start character after the last slash: `qname` answers, `qname_strict` raises ValueError -/
+example : ((St.init.run exHist).step (.qname false (nsE ++ [49]))).2 = .str [49] ∧
+    ((St.init.run exHist).step (.qstrict false (nsE ++ [49]))).2 = .err .ValueError := by decide
 
 /-- The non-override branch of `Memory.bind` as it was before the `fix:` commit: with `p → n1`,
     `q → n2`, `bind(p, n2, override=False)` left a listing that is not a bijection. -/
